@@ -42,6 +42,10 @@ Qed.
    checked the state after the `*0.3` loop) can report success on that state: the guard in get() is what excludes it *)
 Definition stale_entry : state := update phi_stale (update phi_stale (init_state p0_slope) 1) 0x1.3333333333333p-2.
 
+(* 0.3 = 1 * 0.3 and 0.09 = 0.3 * 0.3 as the `*0.3` loop computes them *)
+Definition t_03 : float := 0x1.3333333333333p-2.
+Definition t_009 : float := 0x1.70a3d70a3d70ap-4.
+
 Lemma s_do_get_alone_accepts_invalid_state :
   let r := do_get phi_stale (prm_default 2) p0_slope Lemarechal stale_entry 0x1.70a3d70a3d70ap-4 in
   ok r = true /\ pv (cur (rs r)) = false /\ trace (rs r) = [0x1.3333333333333p-2; 1] /\
